@@ -254,14 +254,42 @@ def _bin_width_terms(ctx, repo):
                 isinstance(st.targets[0].elts[0], ast.Name):
             alpha = st.targets[0].elts[0].id
     ctx.require(alpha is not None, f"{f.qualname}: radial coordinate from polar_spatial_frequencies not found")
-    # store into an index array whose value is linear in alpha and mentions nbins_radial
+    # the flattened label: bins = azimuthal_index + radial_index * nbins_azimuthal  (row-major over
+    # (nbins_radial, nbins_azimuthal), the shape the binned result is reshaped to)
+    import re as _re
+    radial_arr = None
+    label_st = None
+    for st in walk_no_nested(f.node):
+        if not (isinstance(st, ast.Assign) and len(st.targets) == 1):
+            continue
+        p = Normalizer().norm(st.value)
+        if len(p.terms) != 2:
+            continue
+        monos = sorted(p.terms.items(), key=lambda kv: len(kv[0]))
+        (m1, c1), (m2, c2) = monos
+        if len(m1) == 1 and len(m2) == 2 and c1 == 1 and c2 == 1 and all(e == 1 for _, e in m1 + m2):
+            names2 = dict(m2)
+            arr = [a for a in names2 if _re.match(r"^(1\*)?\w+\[", a)]
+            other = [a for a in names2 if a not in arr]
+            if len(arr) == 1 and len(other) == 1 and _re.match(r"^(1\*)?\w+\[", m1[0][0]):
+                radial_arr = _re.match(r"^(?:1\*)?(\w+)\[", arr[0]).group(1)
+                label_st = (st, other[0], _re.match(r"^(?:1\*)?(\w+)\[", m1[0][0]).group(1))
+    ctx.require(radial_arr is not None, f"{f.qualname}: flattened label `azimuthal + radial * nbins` not found")
+    ctx.check(label_st[1] == "nbins_azimuthal", "R-BINWIDTH", f"{f.qualname}:label-order", f.loc(label_st[0]),
+              f"label = {label_st[2]} + {radial_arr} * nbins_azimuthal (row-major over (radial, azimuthal))",
+              f"label = {label_st[2]} + {radial_arr} * {label_st[1]}: the result is reshaped to (nbins_radial, "
+              "nbins_azimuthal), which needs the radial index multiplied by nbins_azimuthal", key_detail="label")
     cands = []
     for st in walk_no_nested(f.node):
         if isinstance(st, ast.Assign) and len(st.targets) == 1:
-            names = {n.id for n in ast.walk(st.value) if isinstance(n, ast.Name)}
-            if alpha in names and "nbins_radial" in names and not any(isinstance(n, ast.Compare) for n in ast.walk(st.value)):
-                cands.append(st)
-    ctx.require(len(cands) == 1, f"{f.qualname}: expected one radial-index assignment, found {len(cands)}")
+            t = st.targets[0]
+            base = t.value if isinstance(t, ast.Subscript) else t
+            if isinstance(base, ast.Name) and base.id == radial_arr:
+                sl = df.backward_slice(df.cfg.node_of(st).idx, st.value)
+                if alpha in sl.visited:
+                    cands.append(st)
+    ctx.require(len(cands) == 1, f"{f.qualname}: expected one radial-index assignment into `{radial_arr}`, "
+                                 f"found {len(cands)}")
     st = cands[0]
     nz = RatFlow(df, df.cfg.node_of(st).idx, identity_calls={"np.floor", "xp.floor", "int"})
     nz.no_inline = {alpha, "inner", "outer", "nbins_radial"}
@@ -387,6 +415,12 @@ def _limits_alternatives(repo, K: ClassInfo, f: FuncInfo, call: ast.Call, bound_
                     # tuple unpacking of self.<method>(...)
                     pos = [i for i, e in enumerate(tgt.elts) if isinstance(e, ast.Name) and e.id == expr.id]
                     c = d.value
+                    hops = 0
+                    while isinstance(c, ast.Name) and hops < 4:
+                        dd = dfl.single_def(d.node, c.id)
+                        if dd is None or dd.kind != "assign" or dd.value is None:
+                            break
+                        c, hops = dd.value, hops + 1
                     if not (isinstance(c, ast.Call) and isinstance(c.func, ast.Attribute) and dotted(c.func.value) == "self" and pos):
                         raise AnalysisError(f"{func.qualname}: cannot follow tuple definition of `{expr.id}`")
                     m = K.find_method(c.func.attr)
